@@ -135,6 +135,54 @@ pub fn faithful(seed: u64, len: usize) -> Script {
     Script { cfg, steps }
 }
 
+/// Reconnect cycles with tiny buffers: every cycle connects, puts a few operations in flight, moves
+/// them forward by single small steps and drops the connection at a random point, so that every
+/// disconnect point of the QoS 1/2 state machine (queued, half encoded, unflushed, awaiting PUBACK /
+/// PUBREC / PUBCOMP, PUBREL queued or half encoded - also for an already retransmitted publish) is
+/// visited; the last cycle lets a conforming broker finish everything.
+pub fn cycles(seed: u64, n_cycles: usize) -> Script {
+    let mut rng = StdRng::seed_from_u64(seed);
+    let mut cfg = random_cfg(&mut rng, false);
+    cfg.src = format!("S2:cycles:{}", seed);
+    cfg.ka = pick(&mut rng, &[-1, 0, 0, 60]);
+    cfg.ack_delay = 0;
+    if rng.gen_bool(0.7) { cfg.retries = -1; }
+    let tiny = [4usize, 4, 5, 6, 7, 7, 9, 12, 20];
+    let mut steps = Vec::new();
+    let submit = |rng: &mut StdRng| -> Step {
+        let kind = pick(rng, &["pub", "pub", "pub", "pub", "pub", "sub", "unsub"]).to_string();
+        Step::Submit { kind, qos: pick(rng, &[0, 1, 1, 2, 2, 2]), topic: pick(rng, &["t1", "t2"]).to_string(), tmo: pick(rng, &[-1, -1, -1, 1000]), retain: false,
+            size: pick(rng, &[0, 0, 10]), alias: pick(rng, &[0, 0, 1]), entries: pick(rng, &[1, 2]), variant: String::new() }
+    };
+    for c in 0..n_cycles {
+        if rng.gen_bool(0.3) { steps.push(submit(&mut rng)); }
+        steps.push(Step::Open { deadline: 30000 });
+        steps.push(Step::Drain { cap: pick(&mut rng, &[16, 64, 4096]) });
+        steps.push(Step::Connack { sp: c > 0 && rng.gen_bool(0.8), rm: pick(&mut rng, &[-1, -1, 1, 2, 3]), ka: -1, tam: pick(&mut rng, &[-1, 0, 2]), mqos: -1, rc: 0, ret: -1, wild: -1, subid: -1, shared: -1, mps: -1, acid: String::new() });
+        for _ in 0..rng.gen_range(0..4) { steps.push(submit(&mut rng)); }
+        let micro = rng.gen_range(0..14);
+        for _ in 0..micro {
+            let r = rng.gen_range(0..100);
+            steps.push(match r {
+                0..=39 => Step::Service { cap: pick(&mut rng, &tiny) },
+                40..=59 => Step::Flush {},
+                60..=79 => Step::Ack { which: "oldest".into(), how: "normal".into() },
+                80..=86 => Step::InPub { qos: pick(&mut rng, &[1, 2]), pid: -1, dup: false, alias: "none".into(), topic: "in1".into() },
+                87..=90 => Step::InPubrel { pid: -1 },
+                91..=95 => submit(&mut rng),
+                _ => Step::Advance { ms: pick(&mut rng, &[1, 50, 999, 1000]) },
+            });
+        }
+        steps.push(Step::Close {});
+    }
+    steps.push(Step::Open { deadline: 30000 });
+    steps.push(Step::Drain { cap: 4096 });
+    steps.push(Step::Connack { sp: rng.gen_bool(0.8), rm: -1, ka: -1, tam: -1, mqos: -1, rc: 0, ret: -1, wild: -1, subid: -1, shared: -1, mps: -1, acid: String::new() });
+    steps.push(Step::Quiesce {});
+    steps.push(Step::Reset {});
+    Script { cfg, steps }
+}
+
 /// Packet-id wrap-around: preset of the allocator cursor is not scriptable, so this run simply
 /// pushes more than `n` acknowledged operations through one connection.
 pub fn wraparound(seed: u64, n: usize) -> Script {
